@@ -96,6 +96,7 @@ def sym_int(x):
   return int(x)
 
 
+EXP_FIXED = None        # when set (a rational in (0,1)): exp(x) = 1 if x == 0 else this value, as one linear if-then-else term
 EXP_CHOICES = None      # when set (a tuple of rationals in (0,1]), exp() picks one of them by symbolic choice
 
 
@@ -113,6 +114,11 @@ def sym_exp(x):
   """exp(x) for x <= 0 (the only use: EMA weight exp(-dt/W)): a fresh w in (0,1], w = 1 iff x = 0"""
   E = _E()
   exp_calls(bump=True)
+  if EXP_FIXED is not None and isinstance(x, (SymReal, Exact)):
+    # scenarios that are not about the smoothing: one fixed weight for every dt > 0 keeps the arithmetic linear
+    if isinstance(x, SymReal):
+      return SymReal(z3.If(x.e == 0, z3.RealVal(1), z3.RealVal(str(Fraction(EXP_FIXED)))))
+    return Exact(1) if x == 0 else Exact(Fraction(EXP_FIXED))
   if EXP_CHOICES and isinstance(x, (SymReal, Exact)):
     # linear variant: the weight is one of a few concrete values (1 stands for dt = 0); keeps the EMA arithmetic linear
     rest = [Fraction(c) for c in EXP_CHOICES if Fraction(c) != 1]
